@@ -103,11 +103,11 @@ def norm_pm(o: Any, top: bool = True) -> Any:
 
 
 def _budget_for(case: Dict[str, Any]) -> int:
-    st = case.get("stats", {})
-    n = st.get("ol_items", 0) + st.get("nt_nodes", 0) + st.get("pl_nodes", 0) + len(case.get("lookups", ())) + case["npages"]
-    # observed on the intact tree: < 450 lines per outline item / tree node (object parsing included);
-    # a lookup walks at most depth*fanout nodes.  x20 and a constant.
-    return 20 * 450 * (n + 10) + 200000
+    """Per call.  Every object is parsed at most once (the document caches them) and parsing dominates: the intact
+    tree needs < 13 executed lines per byte of the uncompressed file for the most expensive call (get_outlines over
+    a 3000-item chain: ~1700 lines per item of ~150 bytes); a walk over cached nodes takes a few hundred lines.
+    400 per byte is > 30 times that."""
+    return 400 * case.get("plain_size", len(case["pdf"]) * 4) + 300000
 
 
 def check_case(case: Dict[str, Any]) -> Tuple[List[Tuple[str, str]], Dict[str, int]]:
@@ -180,7 +180,7 @@ def check_case(case: Dict[str, Any]) -> Tuple[List[Tuple[str, str]], Dict[str, i
             key = KF_ALPHA
         else:
             first = [i for i in mism if i not in gt] or mism
-            key = "label_mismatch:%s:%s" % (what, case["label_styles"][first[0]])
+            key = "label_mismatch:%s" % case["label_styles"][first[0]]
         i = mism[0]
         fails.append((key, "%s: page index %d (style %s): got %r, expected %r; %d of %d pages differ"
                       % (what, i, case["label_styles"][i], got[i], exp_labels[i], len(mism), npages)))
@@ -188,7 +188,14 @@ def check_case(case: Dict[str, Any]) -> Tuple[List[Tuple[str, str]], Dict[str, i
     if exp_labels is not None:
         if got_labels is not None:
             label_diff(got_labels, "get_page_labels")
-        if page_attr is not None and len(page_attr) == npages:
+            if page_attr is not None and len(page_attr) == npages:
+                obs["page_label_attrs_compared"] = npages
+                bad = [i for i in range(min(npages, len(got_labels))) if page_attr[i] != got_labels[i]]
+                if bad:
+                    fails.append(("pagelabel_attr_differs_from_get_page_labels", "page index %d: PDFPage.label %r, "
+                                  "get_page_labels() %r, expected %r" % (bad[0], page_attr[bad[0]], got_labels[bad[0]],
+                                                                         exp_labels[bad[0]])))
+        elif page_attr is not None and len(page_attr) == npages:
             label_diff(page_attr, "PDFPage.label")
     elif page_attr is not None and any(x is not None for x in page_attr):
         fails.append(("pagelabel_without_PageLabels", "labels %r" % (page_attr[:3],)))
@@ -311,15 +318,19 @@ def check_text(case: Dict[str, Any]) -> Tuple[List[Tuple[str, str]], Dict[str, i
 # shards
 # --------------------------------------------------------------------------
 def minimums(tier: str) -> Dict[str, int]:
-    if tier == "quick":
-        return {"evaluations": 12000, "distinct": 9000, "labels_compared": 40000, "outline_items_compared": 15000,
-                "lookups_present": 10000, "lookups_absent": 8000, "text_strings": 8000, "budgeted_docs": 10,
-                "seen:absent_classes": 8, "seen:label_styles": 6, "seen:pdfdoc_codes": 232, "seen:roman_values": 3999,
-                "seen:target_kinds": 8, "seen:tree_modes": 5, "docs:alpha_gt26": 20, "docs:absent": 40}
-    return {"evaluations": 150000, "distinct": 120000, "labels_compared": 500000, "outline_items_compared": 300000,
-            "lookups_present": 200000, "lookups_absent": 150000, "text_strings": 100000, "budgeted_docs": 100,
-            "seen:absent_classes": 8, "seen:label_styles": 6, "seen:pdfdoc_codes": 232, "seen:roman_values": 3999,
-            "seen:target_kinds": 8, "seen:tree_modes": 5, "docs:alpha_gt26": 200, "docs:absent": 400}
+    # the number of cases per family is fixed by shards(); what varies with the seed is their content
+    base = {"evaluations": 95000, "distinct": 70000, "labels_compared": 110000, "page_label_attrs_compared": 110000, "outline_items_compared": 100000,
+            "lookups_present": 110000, "lookups_absent": 120000, "text_strings": 88000, "budgeted_docs": 90,
+            "outline_items_without_dest_or_A": 9000, "no_labels_confirmed": 3000, "no_outlines_confirmed": 3000,
+            "docs:alpha_gt26": 300, "docs:absent": 800, "max_siblings_bucket_>=1000": 4,
+            "absent:tree_absent:gap_between_leaves": 15000, "absent:tree_absent:below_all": 5000,
+            "absent:tree_absent:above_all": 5000, "feat:kids_unordered": 2000}
+    if tier != "quick":
+        base = {k: v * 22 for k, v in base.items()}
+    base.update({"seen:absent_classes": 8, "seen:label_styles": 6, "seen:pdfdoc_codes": 232, "seen:roman_values": 3999,
+                 "seen:target_kinds": 8, "seen:tree_modes": 5, "docs:enum_roman": 80, "docs:enum_alpha": 104,
+                 "text:enum_pdfdoc": 400, "text:enum_utf16": 441})
+    return base
 
 
 def shards(tier: str, seed: int) -> List[Dict[str, Any]]:
@@ -335,16 +346,16 @@ def shards(tier: str, seed: int) -> List[Dict[str, Any]]:
             out.append(d)
             sub += 1
 
-    mult = 1 if q else 12
-    add("mixed", 6 * mult, 110)
-    add("labels", 4 * mult, 70)
-    add("dests", 4 * mult, 75)
-    add("outlines", 4 * mult, 75)
-    add("absent", 1 * mult, 160)
-    add("alpha_gt26", 1 * mult, 60)
-    add("chain", 2 * mult, 7, maxchain=1500 if q else 3000)
+    mult = 1 if q else 24
+    add("mixed", 6 * mult, 600)
+    add("labels", 4 * mult, 300)
+    add("dests", 4 * mult, 400)
+    add("outlines", 4 * mult, 350)
+    add("absent", 1 * mult, 800)
+    add("alpha_gt26", 1 * mult, 300)
+    add("chain", 2 * mult, 8, maxchain=1500 if q else 3000)
     add("deep", 2 * mult, 40)
-    add("text", 3 * mult, 3500)
+    add("text", 3 * mult, 30000)
     # deterministic enumerations (independent of the seed)
     for part in range(4):
         out.append({"kind": "enum_roman", "part": part, "sub": 0})
@@ -404,7 +415,7 @@ def _record(case: Dict[str, Any], rec) -> None:
             rec.count(k, v)
     if "max_steps" in obs:
         ratio = obs["max_steps"] * 100 // max(obs["budget"], 1)
-        rec.count("budget_used_pct_bucket_%s" % ("<1" if ratio < 1 else "<5" if ratio < 5 else "<25" if ratio < 25 else ">=25"))
+        rec.count("budget_used_pct_bucket_%s" % ("<1" if ratio < 1 else "<5" if ratio < 5 else ">=5"))
     for k, d in fails:
         rec.fail(k, case, d)
     if rec.want_sample() and fam != "text" and _nontrivial(case) and len(case["pdf"]) < 6000:
@@ -438,7 +449,8 @@ def run_shard(spec: Dict[str, Any], rec) -> None:
             _record(case, rec)
     elif kind == "chain":
         for i in range(spec["n"]):
-            n = rng.choice([spec["maxchain"], spec["maxchain"] * 2 // 3, 1100, rng.randint(200, spec["maxchain"])])
+            # the first two of every shard are long for certain (the recursion limit is 1000 frames)
+            n = [spec["maxchain"], 1100][i] if i < 2 else rng.choice([spec["maxchain"] * 2 // 3, 1100, rng.randint(200, spec["maxchain"])])
             case = G.gen_doc(rng, "chain", {"profile": "outlines", "chain": n, "budget": True,
                                             "prof": {"items": (0, 30), "pages": (1, 3), "p_tree": 0.3, "p_dict": 0.3}})
             _record(case, rec)
@@ -478,6 +490,9 @@ def run_shard(spec: Dict[str, Any], rec) -> None:
         strings += [bytes([c]) for c in codes]
         strings += [bytes([c, d]) for c in codes if c < 0x20 or 0x7F <= c <= 0xA1 for d in (0x41, 0x80, 0x1F, 0xFF)]
         strings += [bytes(codes), bytes(reversed(codes))]
+        # only FE FF marks UTF-16 (7.9.2.2); these look similar and are PDFDocEncoding: thorn, ydieresis, ...
+        strings += [b"\xff\xfe", b"\xff\xfeA", b"\xfe", b"\xff", b"\xfeA", b"\xfe\xfe\xff", b"A\xfe\xff", b"\xfe\x20\xff",
+                    b"\xef\xbb", b"\xbb\xbf\xef"]
         strings = [s for s in strings if not G._bad_pdfdoc_start(s)]
         for s in strings:
             _record({"fam": "text", "kind": "enum_pdfdoc", "data": s, "expected": R.decode_text_string(s)}, rec)
@@ -490,6 +505,21 @@ def run_shard(spec: Dict[str, Any], rec) -> None:
                 _record({"fam": "text", "kind": "enum_utf16", "data": d, "expected": t}, rec)
     else:
         raise ValueError(kind)
+
+
+def finish(agg: Dict[str, Any], tier: str) -> Dict[str, Any]:
+    c = agg["counters"]
+    return {
+        "exhaustive": {
+            "roman_numerals": "every value 1..3999, styles R and r (80 documents of 100 pages)",
+            "letter_labels": "every value 1..26 at every St, styles A and a",
+            "pdfdocencoding": "each of the 232 defined codes alone, the non-Latin-1 codes in pairs, all codes in one string",
+            "utf16": "21 x 21 boundary code points (U+0000, U+D7FF, U+E000, U+FEFF, U+FFFF, U+10000, U+10FFFF, ...)",
+        },
+        "documents_by_family": {k[5:]: v for k, v in sorted(c.items()) if k.startswith("docs:")},
+        "absent_lookups_by_position": {k[7:]: v for k, v in sorted(c.items()) if k.startswith("absent:")},
+        "features": {k[5:]: v for k, v in sorted(c.items()) if k.startswith("feat:")},
+    }
 
 
 def replay(case: Dict[str, Any]) -> List[Tuple[str, str]]:
